@@ -1,10 +1,14 @@
 //! C04 — to-be-MACed bytes are exactly RFC 8152 MAC_structure.
 
 use crate::cbor::hex_trunc;
+use crate::cbor::StyleOpts;
+use crate::gen::{gen_msg, Faults};
+use crate::model::{m_msg, Kind, MCtx};
+use crate::props::common::styled;
 use crate::props::structs::*;
 use crate::run::{hash_bytes, no_exh_case, no_exh_count, CaseResult, Ctx, Property};
 use crate::tape::Gen;
-use coset::{mac_structure_data, CoseMac, CoseMac0, CoseMac0Builder, CoseMacBuilder, Header, MacContext};
+use coset::{mac_structure_data, CborSerializable, CoseMac, CoseMac0, CoseMac0Builder, CoseMacBuilder, Header, MacContext};
 use std::cell::RefCell;
 
 fn expect_eq(what: &str, got: &[u8], want: &[u8]) -> CaseResult {
@@ -12,7 +16,48 @@ fn expect_eq(what: &str, got: &[u8], want: &[u8]) -> CaseResult {
     Ok(())
 }
 
+/// A whole COSE_Mac / COSE_Mac0 decoded from styled wire bytes (any unprotected header, recipients), then verified.
+fn wire_carrier_case(g: &mut Gen, ctx: &mut Ctx) -> CaseResult {
+    let kind = *g.pick(&[Kind::Mac, Kind::Mac0]);
+    let depth = g.below(2);
+    let item = gen_msg(g, kind, &mut Faults::none(), depth);
+    let (bytes, enc) = styled(&item, g, StyleOpts::ALL);
+    let mut mc = MCtx::default();
+    let m = match m_msg(kind, &enc, &mut mc) {
+        Ok(m) => m,
+        Err(_) => return Ok(()),
+    };
+    let payload = match &m.content {
+        Some(p) => p.clone(),
+        None => return Ok(()),
+    };
+    let aad = gen_class_bytes(g);
+    let w = m.protected.wire.clone().unwrap_or_default();
+    ctx.classf(format!("wire-carrier:{}", kind.name()));
+    ctx.nontrivial(hash_bytes(&[&b"w"[..], &bytes, &aad].concat()));
+    ctx.sample_with(|| format!("whole {} decoded from {} then verified, aad {}B", kind.name(), hex_trunc(&bytes, 48), aad.len()));
+    let mut seen = (vec![], vec![]);
+    let f = |t: &[u8], d: &[u8]| -> Result<(), u8> {
+        seen = (t.to_vec(), d.to_vec());
+        Ok(())
+    };
+    let want = if kind == Kind::Mac {
+        let v = match CoseMac::from_slice(&bytes) { Ok(v) => v, Err(e) => { return if mc.unspecified { Ok(()) } else { Err(format!("valid COSE_Mac rejected: {:?}", e)) } } };
+        let _ = v.verify_tag(&aad, f);
+        ref_mac_structure("MAC", &w, &aad, &payload)
+    } else {
+        let v = CoseMac0::from_slice(&bytes).map_err(|e| format!("valid COSE_Mac0 rejected: {:?}", e))?;
+        let _ = v.verify_tag(&aad, f);
+        ref_mac_structure("MAC0", &w, &aad, &payload)
+    };
+    ensure!(seen.0 == m.auth, "whole {}: verify_tag handed over a tag other than the received one", kind.name());
+    expect_eq(&format!("whole {}: verify_tag", kind.name()), &seen.1, &want)
+}
+
 fn case(g: &mut Gen, ctx: &mut Ctx) -> CaseResult {
+    if g.ratio(1, 5) {
+        return wire_carrier_case(g, ctx);
+    }
     let prot = gen_prot(g, ctx)?;
     let aad = gen_class_bytes(g);
     let payload = gen_class_bytes(g);
